@@ -376,6 +376,7 @@ func prepareObligation(c *VCtx, o *Obligation, mode Mode, opt solveOpts) {
 		return
 	}
 	as := c.assertsFor(o, false)
+	QueryGoalMarker = Not(o.Goal)
 	gv, names := interestingTerms(as)
 	if mode == ModeInt {
 		// stage 0: bitwise operators on two variables abstracted to uninterpreted functions
